@@ -109,6 +109,28 @@ CHECKS['C16'] = dict(
               "stand-in for the deductive technique)",
     design='4 C16')
 
+def _bounded(pid, text, note, design):
+    CHECKS[pid] = dict(category='exploration', text=text, note=note, design=design,
+                       technique="run-time contract on the real functions over enumerated / seeded inputs with an "
+                                 "independent oracle (bounded stand-in for the deductive technique; nothing proved)")
+
+
+_bounded('C07',
+         "Bounded stand-in (not a proof): generated well-typed terms over the theory real are printed (ASCII and "
+         "Unicode, two line widths, cold and after other terms) and parsed back; types and sequents likewise.",
+         "No deductive part: the parser is a Lark table generated from a grammar string. Instantiations and exported "
+         "proof steps are not exercised yet.", '4 C07')
+_bounded('C09',
+         "Bounded stand-in (not a proof): first_order_match on generated first-order and higher-order patterns "
+         "against instances and unrelated targets: the result instantiates the pattern to the target up to "
+         "beta-eta, extends the given instantiation, leaves the caller's object untouched; first-order completeness.",
+         "No deductive part yet (closures mutating a shared Inst).", '4 C09')
+_bounded('C10',
+         "Bounded stand-in (not a proof): conversions (nat/real/propositional normalisers, traversal combinators "
+         "with rewrite rules) on generated terms: equation about the given term, no hypotheses, exported proof "
+         "accepted by the checker, eval agrees; canonicity under rearrangement and idempotence.",
+         "Known finding recorded: proplogic.norm_full on members containing a literal and its negation.", '4 C10')
+
 NOT_APPLICABLE = {
     'C19': "real-analytic equality of integrals/limits/series with a numeric floating-point oracle; no decidable "
            "function contract (DESIGN 4 C19)",
